@@ -1,9 +1,7 @@
-CONSTANTS S = 16 Step = 1 MinN = 2 MaxN = 5 Degrees = {1, 2, 3}
+CONSTANTS S = 16 Step = 1 MinN = 2 MaxN = 3 Degrees = {1, 2}
 CONSTANTS UpperClosed = TRUE FirstClosed = TRUE
 INIT InitGrids
 NEXT Next
-INVARIANT InvBasis
-INVARIANT InvAreas
-INVARIANT InvReinterp
+INVARIANT InvC34
 INVARIANT InvReject
 CHECK_DEADLOCK FALSE
